@@ -71,8 +71,12 @@ def instances(tier, seed):
             g = grids[n % 5]
             add(fam.with_horizon(s, h), Cfg(method, N=[2, 3][n % 2], M=[2, 1][n % 2], intg='rk', grid=g))
             n += 1
-    # a square MATRIX-valued state with a non-symmetric right-hand side (element (i,j) of the state follows element (i,j) of the right-hand side)
     from ..dsl import Spec as Spec_
+    # a per-interval parameter AND a per-node (include_last) parameter inside the dynamics: each reaches the integrator in its own slot
+    spp = Spec_(nx=2, nu=1, ode=[nl1(X(1)) * U(0) * Pg('pp') + t * X(0), X(0) - X(1) * Pg('pc') + Pg('pp')], params=[Sym('pc', 'control', value=3), Sym('pp', 'control+', value=Fr(1, 2))], note='control and control+ parameters in the dynamics')
+    for method, intg in (('MS', 'rk'), ('SS', 'expl_euler')):
+        add(fam.with_horizon(spp, H[1]), Cfg(method, N=2, M=2, intg=intg or 'rk', grid=fam.G_UNI, degree=2, scheme='radau'))
+    # a square MATRIX-valued state with a non-symmetric right-hand side (element (i,j) of the state follows element (i,j) of the right-hand side)
     sm = Spec_(nx=5, nu=1, xshape=[(2, 2), (1, 1)], ode=[X(1) * 2 + t, X(0) - U(0), nl1(X(3)) + X(4), X(2) * X(0), X(1) - X(2)], note='2x2 matrix state, non-symmetric right-hand side')
     for method, intg in (('MS', 'rk'), ('SS', 'expl_euler')):
         add(fam.with_horizon(sm, H[1]), Cfg(method, N=2, M=2, intg=intg, grid=fam.G_UNI))
